@@ -115,6 +115,9 @@ def handle (kind : String) (args : List String) (impl : String) : String :=
       let d := if impl == m then "" else s!"DIFF model={m} impl={impl}"
       let spS := if sp == "" then "" else s!"SPEC {sp} impl={impl}"
       if d == "" && spS == "" then "ok" else d ++ (if d != "" && spS != "" then " ; " else "") ++ spS
+  | "c15.swap", [_, _, _, _] =>
+    -- ReplaceAll and Add are one step of the set (Model.HostSet.cstep): a reader sees the list before or the list after
+    if impl == "odd=0" then "ok" else s!"SPEC reader-saw-a-usable-list-that-is-neither-the-one-before-nor-the-one-after-the-call impl={impl}"
   | "c15.hc", [r, f, outs] =>
     match r.toNat?, f.toNat? with
     | some rise, some fall =>
